@@ -135,8 +135,11 @@ TEXT = {
     "C02": dict(
         text="Theorems decode_encode (wire codec round trip for all payloads/TTLs/names/services of 1-8 non-NUL-terminated bytes), "
              "deframe_any_schedule (every chunking and every placement of reads returns exactly the framed messages), "
-             "deliver_exactly_once_at_addressee (hop-by-hop walk over arbitrary networks with a route). Tie: regenerated layout/"
-             "framing facts + byte-exact differential runs of translateData*, the framer and handleMessageData (single node and multi-node pump).",
+             "deliver_exactly_once_at_addressee (hop-by-hop walk over arbitrary networks with a route), addressee_unique (IDs that differ "
+             "only in letter case are different nodes). Tie: regenerated layout/"
+             "framing facts + byte-exact differential runs of translateData*, the framer and handleMessageData (single node and multi-node pump), "
+             "and real nodes in a chain (link engine): payloads of 0 … MTU bytes (MTU-37 … MTU included) sent across real links between nodes "
+             "whose IDs may differ only in case, every node listening on the service — received exactly once, at the addressee, unaltered.",
         note=BASE_NOTE + "Assumed: highwayhash collision-free on the names in play; Go channel/map semantics. Concurrent senders are "
              "covered by the model's independence of packets (each send is its own walk), not by a schedule theorem: partial."),
     "C11": dict(
